@@ -19,11 +19,54 @@ Ltac fin_F :=
   unfold Inv_F, should_exit, not_pending, no_afterwait, acted_from in *; bproj;
   cbn [chk final_step app orb andb negb disc_like is_async] in *.
 
+Lemma async_not_disc c : is_async c = true -> disc_like c = false.
+Proof. destruct c; cbn; congruence. Qed.
+
+Ltac boolfacts :=
+  repeat match goal with
+  | c : bcs |- _ =>
+      lazymatch goal with
+      | H : is_async c = true -> disc_like c = false |- _ => fail
+      | _ => pose proof (async_not_disc c)
+      end
+  end.
+
+(* propositional reasoning over boolean equations *)
+Ltac bnorm :=
+  repeat (rewrite ?orb_true_iff, ?andb_true_iff, ?orb_false_iff, ?andb_false_iff, ?negb_true_iff, ?negb_false_iff in * );
+  repeat match goal with
+  | H : context [?b = false] |- _ => rewrite <- (not_true_iff_false b) in H
+  | |- context [?b = false] => rewrite <- (not_true_iff_false b)
+  end.
+Ltac bsolve := bnorm; intuition (try discriminate; try congruence).
+
+Ltac leaf_F M1b :=
+  boolfacts;
+  lazymatch goal with
+  | |- exists _, None = Some _ /\ _ => exfalso; bsolve
+  | |- exists _, Some _ = Some _ /\ _ =>
+      eexists; split; [reflexivity|];
+      split; [ let Hx := fresh in intros Hx; split;
+               [bsolve | first [intros ?; discriminate | apply M1b; bsolve | exfalso; bsolve]] |];
+      split; [ bsolve |];
+      split; [ let Hx := fresh in intros Hx;
+               first [left; solve [bsolve] | right; repeat split; first [reflexivity | solve [bsolve]] | exfalso; bsolve ] |];
+      let Hx := fresh in let rc := fresh in intros Hx rc; first [discriminate | exfalso; bsolve]
+  end.
+
 Lemma F_step cfg : forall p s c, Inv_F cfg p s c -> is_done p = false ->
   exists c', chk (final_step (c_rof cfg)) c (st_evs (step cfg p s)) = Some c' /\
              Inv_F cfg (st_pc (step cfg p s)) (st_st (step cfg p s)) c'.
 Proof.
-  intros p s c HI Hd. destruct s as [nw dl cs sk p3 tm oq sc n ac].
-  destruct p; try discriminate; unfold_ctl; bproj; bcases; cb_split; name_states; fin_F.
-  all: idtac.
+  intros p s c (M1 & M2 & F1 & F2) Hd. destruct s as [nw dl cs sk p3 tm oq sc n ac].
+  unfold should_exit, not_pending, no_afterwait in *. bproj.
+  assert (M1a : ac = true -> disc_like cs || tm = true) by (intros Hx; apply M1; exact Hx).
+  assert (M1b : ac = true -> forall o, sk <> Pending o) by (intros Hx; apply M1; exact Hx).
+  clear M1.
+  assert (F2' : c_rof cfg = false -> match p with PcAfterWait _ => False | _ => True end).
+  { intros Hx. destruct p; try exact Logic.I. exact (F2 Hx rc eq_refl). }
+  clear F2.
+  destruct c; [destruct (F1 eq_refl) as [Fa|(Fr & Fs & Fy)]; [|subst sk]|]; clear F1.
+  all: destruct p; try discriminate; unfold_ctl; bproj; bcases; cb_split; name_states; fin_F; try solve [leaf_F M1b].
+  Show.
 Admitted.
